@@ -268,11 +268,13 @@ class Rendering:
     """A choice of unit system per nesting level and of quantity form per field,
     drawn lazily from a seeded RNG so that it is reproducible from (seed, salt)."""
 
-    def __init__(self, r, sys_draw=mild_sys, forms=("bare", "str", "uv"), levels="all", same=None):
+    def __init__(self, r, sys_draw=mild_sys, forms=("bare", "str", "uv"), levels="all", same=None,
+                 molecule_state=False):
         self.r = r
         self.sys_draw = sys_draw
         self.forms = forms
         self.same = same           # if given: every level uses this system
+        self.molecule_state = molecule_state   # system level counts in molecules, state given as bare numbers
         self.log = {}
 
     def level(self, name, parent):
@@ -283,6 +285,8 @@ class Rendering:
             s = parent
         else:
             s = self.sys_draw(self.r)
+        if name == "system" and self.molecule_state:
+            s = (s[0], s[1], "molecule")
         self.log[name] = s
         return s
 
@@ -370,7 +374,7 @@ def render_system(desc, rd):
     space = render_space(desc, rd, sysu)
     kw = {}
     if desc["state"] is not None:
-        form = rd.r.choice(["bare", "ua"])
+        form = "bare" if rd.molecule_state else rd.r.choice(["bare", "ua"])
         if form == "bare":
             kw["state"] = [q_bare(x, sysu, Q_DIM) for x in desc["state"]]
         else:
